@@ -76,6 +76,146 @@ fn fnv1a32(bytes: &[u8]) -> u32 {
 }
 
 // ---------------------------------------------------------------------------------------------
+// spellings: the SAME key content produced through different construction paths (rope shapes)
+// ---------------------------------------------------------------------------------------------
+/// How the bytes of a key occurrence are written in the generated program. The dict must treat two
+/// binaries with equal content as the same key whatever their internal representation (literal /
+/// lazily zero-filled `n %bin.new` / concat rope / slice of a longer binary / tiled repeat); the
+/// model and the host oracle identify keys by content only.
+#[derive(Clone, Debug, PartialEq, Eq, Hash)]
+enum Sp {
+    /// `0x…` hex literal
+    Lit,
+    /// `"…"` string literal (printable `Str` keys only)
+    Pretty,
+    /// `n %bin.new` (all-zero content)
+    Zeroed,
+    /// `[left, right] %bin.concat`, split at k; `true`: all-zero pieces are written `n %bin.new`
+    Concat(usize, bool),
+    /// `[0x<a junk bytes><key><b junk bytes>, a, a+len] %bin.slice`
+    Slice(usize, usize),
+    /// `[unit, count] __binary_repeat__` with a unit of u bytes (periodic content)
+    Repeat(usize),
+}
+
+impl Sp {
+    fn tok(&self) -> String {
+        match self {
+            Sp::Lit => "l".into(),
+            Sp::Pretty => "p".into(),
+            Sp::Zeroed => "z".into(),
+            Sp::Concat(k, false) => format!("c{k}"),
+            Sp::Concat(k, true) => format!("C{k}"),
+            Sp::Slice(a, b) => format!("s{a}.{b}"),
+            Sp::Repeat(u) => format!("r{u}"),
+        }
+    }
+    fn parse(t: &str) -> Option<Sp> {
+        let (c, rest) = t.split_at(1);
+        Some(match c {
+            "l" => Sp::Lit,
+            "p" => Sp::Pretty,
+            "z" => Sp::Zeroed,
+            "c" => Sp::Concat(rest.parse().ok()?, false),
+            "C" => Sp::Concat(rest.parse().ok()?, true),
+            "s" => {
+                let (a, b) = rest.split_once('.')?;
+                Sp::Slice(a.parse().ok()?, b.parse().ok()?)
+            }
+            "r" => Sp::Repeat(rest.parse().ok()?),
+            _ => return None,
+        })
+    }
+    fn class(&self) -> &'static str {
+        match self {
+            Sp::Lit => "literal",
+            Sp::Pretty => "string-literal",
+            Sp::Zeroed => "zeroed(bin.new)",
+            Sp::Concat(_, false) => "concat",
+            Sp::Concat(_, true) => "concat-of-zeroed",
+            Sp::Slice(..) => "slice",
+            Sp::Repeat(_) => "repeat",
+        }
+    }
+}
+
+fn all_zero(b: &[u8]) -> bool {
+    b.iter().all(|x| *x == 0)
+}
+
+/// Spellings that denote exactly `b`.
+fn applicable(b: &[u8], is_str: bool) -> Vec<Sp> {
+    let mut v = vec![Sp::Lit];
+    let printable = !b.is_empty() && b.iter().all(|c| c.is_ascii_alphanumeric() || *c == b' ' || *c == b'_' || *c == b'-');
+    if is_str && printable {
+        v.push(Sp::Pretty);
+    }
+    if all_zero(b) {
+        v.push(Sp::Zeroed);
+    }
+    for k in 0..=b.len() {
+        v.push(Sp::Concat(k, false));
+        if (k > 0 && all_zero(&b[..k])) || (k < b.len() && all_zero(&b[k..])) {
+            v.push(Sp::Concat(k, true));
+        }
+    }
+    for (a, c) in [(0usize, 1usize), (1, 0), (2, 3), (1, 1)] {
+        v.push(Sp::Slice(a, c));
+    }
+    for u in 1..=b.len() / 2 {
+        if b.len() % u == 0 && b.chunks(u).all(|c| c == &b[..u]) {
+            v.push(Sp::Repeat(u));
+        }
+    }
+    v
+}
+
+/// Source expression of the binary `b` in spelling `sp` (falls back to the literal when the
+/// spelling does not apply to this content).
+fn spell_bin(b: &[u8], sp: &Sp) -> String {
+    let piece = |x: &[u8], zero: bool| if zero && !x.is_empty() && all_zero(x) { format!("{} %bin.new", x.len()) } else { format!("0x{}", hex(x)) };
+    match sp {
+        Sp::Zeroed if all_zero(b) => format!("{} %bin.new", b.len()),
+        Sp::Concat(k, z) if *k <= b.len() => format!("[{}, {}] %bin.concat", piece(&b[..*k], *z), piece(&b[*k..], *z)),
+        Sp::Slice(a, c) => {
+            let mut x: Vec<u8> = (0..*a).map(|i| 0xa0 + i as u8).collect();
+            x.extend_from_slice(b);
+            x.extend((0..*c).map(|i| 0x5f - i as u8));
+            format!("[0x{}, {}, {}] %bin.slice", hex(&x), a, a + b.len())
+        }
+        Sp::Repeat(u) if *u >= 1 && b.len() >= 2 * u && b.len() % u == 0 && b.chunks(*u).all(|c| c == &b[..*u]) => {
+            format!("[0x{}, {}] __binary_repeat__", hex(&b[..*u]), b.len() / u)
+        }
+        _ => format!("0x{}", hex(b)),
+    }
+}
+
+/// Source expression of a key occurrence.
+fn spell_key(k: &Key, sp: &Sp) -> String {
+    match k {
+        Key::Bin(b) => spell_bin(b, sp),
+        Key::Str(b) => match sp {
+            Sp::Pretty => k.src(true),
+            _ => format!("Str[{}]", spell_bin(b, sp)),
+        },
+    }
+}
+
+fn pick_spelling(r: &mut Rng, k: &Key) -> Sp {
+    let is_str = matches!(k, Key::Str(_));
+    let app = applicable(k.bytes(), is_str);
+    if r.chance(2, 5) {
+        return if app.contains(&Sp::Pretty) && r.chance(1, 2) { Sp::Pretty } else { Sp::Lit };
+    }
+    // lazily zero-filled and tiled forms are rare among the applicable ones: favour them
+    let special: Vec<&Sp> = app.iter().filter(|s| matches!(s, Sp::Zeroed | Sp::Repeat(_) | Sp::Concat(_, true))).collect();
+    if !special.is_empty() && r.chance(1, 2) {
+        return special[r.usize(special.len())].clone();
+    }
+    app[r.usize(app.len())].clone()
+}
+
+// ---------------------------------------------------------------------------------------------
 // colliding key sets, found by search (deterministic in the seed)
 // ---------------------------------------------------------------------------------------------
 struct KeySets {
@@ -246,6 +386,51 @@ impl Op {
 struct History {
     kind: String,
     ops: Vec<Op>,
+    /// spell[i][j]: how the j-th key occurrence of operation i is written in the program
+    spell: Vec<Vec<Sp>>,
+}
+
+fn op_keys(o: &Op) -> Vec<&Key> {
+    match o {
+        Op::Put(_, k, _) | Op::Remove(_, k) | Op::Get(_, k) | Op::Has(_, k) => vec![k],
+        Op::From(ps) => ps.iter().map(|(k, _)| k).collect(),
+        _ => vec![],
+    }
+}
+
+impl History {
+    /// Spellings drawn at random (generator) …
+    fn spelled(kind: String, ops: Vec<Op>, r: &mut Rng) -> History {
+        let spell = ops.iter().map(|o| op_keys(o).into_iter().map(|k| pick_spelling(r, k)).collect()).collect();
+        History { kind, ops, spell }
+    }
+    /// … or cycling deterministically through every applicable spelling (corpus files without a
+    /// spelling table, neighbourhood search).
+    fn cycled(kind: String, ops: Vec<Op>, keep: &[Vec<Sp>]) -> History {
+        let mut n = 0usize;
+        let spell = ops
+            .iter()
+            .enumerate()
+            .map(|(i, o)| {
+                op_keys(o)
+                    .into_iter()
+                    .enumerate()
+                    .map(|(j, k)| {
+                        if let Some(sp) = keep.get(i).and_then(|v| v.get(j)) {
+                            return sp.clone();
+                        }
+                        let app = applicable(k.bytes(), matches!(k, Key::Str(_)));
+                        n += 1;
+                        app[(n * 7 + i) % app.len()].clone()
+                    })
+                    .collect()
+            })
+            .collect();
+        History { kind, ops, spell }
+    }
+    fn sp(&self, i: usize, j: usize) -> Sp {
+        self.spell.get(i).and_then(|v| v.get(j)).cloned().unwrap_or(Sp::Lit)
+    }
 }
 
 fn parse_key_tok(t: &str) -> Option<Key> {
@@ -292,6 +477,22 @@ fn parse_op(line: &str) -> Option<Op> {
 }
 
 fn random_key(r: &mut Rng) -> Key {
+    // contents that have a lazily zero-filled / tiled representation
+    match r.below(12) {
+        0 | 1 => {
+            let zl = r.usize(10);
+            let b = vec![0u8; zl];
+            return if r.chance(2, 3) { Key::Bin(b) } else { Key::Str(b) };
+        }
+        2 => {
+            let ul = 1 + r.usize(2);
+            let unit = r.bytes(ul);
+            let reps = 2 + r.usize(3);
+            let b: Vec<u8> = unit.iter().cycle().take(unit.len() * reps).cloned().collect();
+            return if r.chance(2, 3) { Key::Bin(b) } else { Key::Str(b) };
+        }
+        _ => {}
+    }
     let len = match r.below(8) {
         0 => 0,
         1 | 2 => 1,
@@ -439,7 +640,7 @@ fn gen_bulk(r: &mut Rng, ks: &KeySets, n_keys: usize) -> History {
     ops.push(Op::Get(v + 1, order[0].clone()));
     ops.push(Op::Merge(v + 1, 1));
     ops.push(Op::Count(v + 2));
-    History { kind: "bulk".into(), ops }
+    History::spelled("bulk".into(), ops, r)
 }
 
 fn gen_history(r: &mut Rng, ks: &KeySets, max_ops: usize) -> History {
@@ -523,16 +724,16 @@ fn gen_history(r: &mut Rng, ks: &KeySets, max_ops: usize) -> History {
         }
         ops.push(op);
     }
-    History { kind, ops }
+    History::spelled(kind, ops, r)
 }
 
 // ---------------------------------------------------------------------------------------------
 // the Quiver program of a history
 // ---------------------------------------------------------------------------------------------
-fn qv_pairs(ps: &[(Key, i64)], pretty: bool) -> String {
+fn qv_pairs(ps: &[(Key, i64)], h: &History, i: usize) -> String {
     let mut s = String::new();
-    for (k, x) in ps {
-        s.push_str(&format!("Cons[[{}, {x}], ", k.src(pretty)));
+    for (j, (k, x)) in ps.iter().enumerate() {
+        s.push_str(&format!("Cons[[{}, {x}], ", spell_key(k, &h.sp(i, j))));
     }
     s.push_str("Nil");
     for _ in ps {
@@ -547,18 +748,18 @@ fn program(h: &History) -> (String, usize, usize) {
     let mut versions = 1usize;
     let mut obs = 0usize;
     for (i, op) in h.ops.iter().enumerate() {
-        let pretty = i % 2 == 0;
+        let sp0 = h.sp(i, 0);
         match op {
             Op::Put(v, k, x) => {
-                s.push_str(&format!("d{versions} = [d{v}, {}, {x}] %dict.put,\n", k.src(pretty)));
+                s.push_str(&format!("d{versions} = [d{v}, {}, {x}] %dict.put,\n", spell_key(k, &sp0)));
                 versions += 1;
             }
             Op::Remove(v, k) => {
-                s.push_str(&format!("d{versions} = [d{v}, {}] %dict.remove,\n", k.src(pretty)));
+                s.push_str(&format!("d{versions} = [d{v}, {}] %dict.remove,\n", spell_key(k, &sp0)));
                 versions += 1;
             }
             Op::From(ps) => {
-                s.push_str(&format!("d{versions} = {} %dict.from,\n", qv_pairs(ps, pretty)));
+                s.push_str(&format!("d{versions} = {} %dict.from,\n", qv_pairs(ps, h, i)));
                 versions += 1;
             }
             Op::Merge(a, b) => {
@@ -566,11 +767,11 @@ fn program(h: &History) -> (String, usize, usize) {
                 versions += 1;
             }
             Op::Get(v, k) => {
-                s.push_str(&format!("o{obs} = [d{v}, {}] %dict.get,\n", k.src(pretty)));
+                s.push_str(&format!("o{obs} = [d{v}, {}] %dict.get,\n", spell_key(k, &sp0)));
                 obs += 1;
             }
             Op::Has(v, k) => {
-                s.push_str(&format!("o{obs} = [d{v}, {}] %dict.has?,\n", k.src(pretty)));
+                s.push_str(&format!("o{obs} = [d{v}, {}] %dict.has?,\n", spell_key(k, &sp0)));
                 obs += 1;
             }
             Op::Count(v) => {
@@ -1213,6 +1414,10 @@ fn shrink(h: &History, sig: &str, modules: &HashMap<Vec<String>, String>, b: &Bu
 fn drop_op(h: &History, i: usize) -> Option<History> {
     let mut ops = h.ops.clone();
     let op = ops.remove(i);
+    let mut spell = h.spell.clone();
+    if i < spell.len() {
+        spell.remove(i);
+    }
     if op.creates() {
         let n = 1 + h.ops[..i].iter().filter(|o| o.creates()).count();
         let src = match &op {
@@ -1237,7 +1442,7 @@ fn drop_op(h: &History, i: usize) -> Option<History> {
             }
         }
     }
-    Some(History { kind: h.kind.clone(), ops })
+    Some(History { kind: h.kind.clone(), ops, spell })
 }
 
 /// All keys mentioned by a history.
@@ -1274,7 +1479,7 @@ fn neighbourhood(h: &History) -> Vec<History> {
         }
         a.ops.push(Op::Count(v));
     }
-    out.push(a);
+    out.push(History::cycled(a.kind.clone(), a.ops, &h.spell));
     // (b) per version: update every key, then read everything
     for v in (0..versions).rev().take(6) {
         let mut b = h.clone();
@@ -1292,19 +1497,31 @@ fn neighbourhood(h: &History) -> Vec<History> {
             }
         }
         if b.ops.len() <= 400 {
-            out.push(b);
+            out.push(History::cycled(b.kind.clone(), b.ops, &h.spell));
         }
     }
     out
 }
 
 fn history_json(h: &History) -> serde_json::Value {
-    json!({"kind": h.kind, "ops": h.ops.iter().map(|o| o.to_json()).collect::<Vec<_>>()})
+    json!({
+        "kind": h.kind,
+        "ops": h.ops.iter().map(|o| o.to_json()).collect::<Vec<_>>(),
+        "spell": h.spell.iter().map(|v| v.iter().map(|s| s.tok()).collect::<Vec<_>>().join(" ")).collect::<Vec<_>>(),
+    })
 }
 
+/// `spell` is optional in corpus files: missing entries cycle through every applicable spelling.
 fn history_from_json(j: &serde_json::Value) -> Option<History> {
     let ops = j["ops"].as_array()?.iter().map(|l| parse_op(l.as_str()?)).collect::<Option<Vec<_>>>()?;
-    Some(History { kind: j["kind"].as_str().unwrap_or("corpus").to_string(), ops })
+    let keep: Vec<Vec<Sp>> = match j["spell"].as_array() {
+        Some(a) => a
+            .iter()
+            .map(|l| l.as_str().unwrap_or("").split_whitespace().map(|t| Sp::parse(t)).collect::<Option<Vec<_>>>())
+            .collect::<Option<Vec<_>>>()?,
+        None => vec![],
+    };
+    Some(History::cycled(j["kind"].as_str().unwrap_or("corpus").to_string(), ops, &keep))
 }
 
 fn main() {
@@ -1442,6 +1659,23 @@ fn main() {
         ev.case(&h, nontrivial);
         ev.hit(&format!("pool:{}", h.kind));
         ev.add("ops", h.ops.len() as u64);
+        {
+            // how often is the SAME key content presented through DIFFERENT construction paths?
+            let mut seen: BTreeMap<Key, BTreeSet<&'static str>> = BTreeMap::new();
+            for (oi, o) in h.ops.iter().enumerate() {
+                for (j, k) in op_keys(o).into_iter().enumerate() {
+                    let sp = h.sp(oi, j);
+                    ev.hit(&format!("spelling:{}", sp.class()));
+                    seen.entry(k.clone()).or_default().insert(sp.class());
+                }
+            }
+            if seen.values().any(|c| c.len() >= 2) {
+                ev.hit("history:some-key-in-2+-representations");
+            }
+            if seen.iter().any(|(k, c)| c.contains("zeroed(bin.new)") && c.len() >= 2 && k.bytes().len() != 1) {
+                ev.hit("history:zero-filled-key-also-in-another-representation");
+            }
+        }
         for o in &h.ops {
             ev.hit(&format!("op:{}", o.name()));
             match o {
